@@ -225,7 +225,7 @@ def edit_and_restore(result, check):
     saved_arrays, saved_objs, edited = [], [], []
     try:
         for a in sorted(arrays, key=lambda z: -z.nbytes):
-            if a.size == 0 or a.dtype.hasobject or not a.flags.writeable:
+            if a.size == 0 or a.dtype.itemsize == 0 or a.dtype.hasobject or not a.flags.writeable:
                 continue
             if any(np.shares_memory(a, e) for e in edited):
                 continue  # (part of) it is overwritten already: a second inversion would put the old bytes back
